@@ -51,10 +51,11 @@ VARIABLES
   isidx,     \* node -> label index carried by the InstallSnapshot request it is handling
   lastae,    \* node -> the AppendEntries call it handled last while quiescent, until its next status
   s7,        \* set of nodes on which the signature of known finding S7 occurred
+  vrep,      \* node -> time at which it was last handed a replication reply from a voter of its configuration
   bad        \* set of violation records
 
 vars == <<l, meta, dur, pstate, maxterm, votes, applied, cursor, leaders, lfirst, committed,
-          reqs, hpre, stat, inv, wdone, rdone, retd, dead, mtrack, mwait, finals, healed, s5, hl, fsmc, taken, sopen, isidx, lastae, s7, bad>>
+          reqs, hpre, stat, inv, wdone, rdone, retd, dead, mtrack, mwait, finals, healed, s5, hl, fsmc, taken, sopen, isidx, lastae, s7, vrep, bad>>
 
 -----------------------------------------------------------------------------
 Ev == Trace[l]
@@ -417,7 +418,8 @@ C03_NoInvention ==
     IF InvLineOfVal(Ev.val) = 0 THEN {V("C03", "AppliedNeverSubmitted", <<Ev.val, Ev.index>>)} ELSE {}
 
 (* C04 *)
-OnDisk(n, i, t, v) == LET lg == Log(n) IN HasIdx(lg, i) /\ At(lg, i).t = t /\ At(lg, i).v = v
+\* on disk as a log entry, or covered by the node's snapshot (whose content C10 judges)
+OnDisk(n, i, t, v) == LET lg == Log(n) IN (HasIdx(lg, i) /\ At(lg, i).t = t /\ At(lg, i).v = v) \/ i <= lg.base
 C04_AckDurable ==
   IF meta.family = "member" THEN {} ELSE     \* static membership only (C09 covers the rest)
   IF FirstApply THEN
@@ -456,6 +458,24 @@ C17_Lease ==
     LET il == inv[Ev.op].line
         stale == {w \in wdone : w.line < il /\ w.index > Ev.last} IN
     IF stale # {} THEN {V("C17", "StaleLeaseRead", <<Ev.op, Ev.node, Ev.last, stale>>)} ELSE {}
+
+\* ... and a leader whose lease has lapsed, or that only non-voters answer, does not return data:
+\* a lease is renewed when a reply completes a round's quorum, so a read served at or after its
+\* invocation needs some voter's reply handed to the node less than a lease duration before that
+\* (a necessary condition; judged for configurations with more than one voter)
+NextVrep ==
+  IF Is("scenario") THEN <<>>
+  ELSE IF Is("reply") /\ Ev.kind \in {"ae", "is"} /\ Ev.to \in Voters THEN Put(vrep, Ev.from, Ev.t)
+  ELSE IF (Is("restart") \/ Is("crash")) /\ Ev.node \in DOMAIN vrep THEN Del(vrep, Ev.node)
+  ELSE vrep
+C17_Refusal ==
+  \* (the lease family never changes the set of voters: they are the scenario's initial voters)
+  IF ~(OkLease /\ meta.family = "lease" /\ "lease_us" \in DOMAIN meta) THEN {} ELSE
+    LET n == Ev.node
+        ti == inv[Ev.op].e.t
+        last == Get(vrep, n, -1) IN
+    IF Cardinality(Voters) > 1 /\ (last = -1 \/ last + meta.lease_us <= ti)
+      THEN {V("C17", "LeaseReadWithoutRecentVoterReply", <<Ev.op, n, last, ti>>)} ELSE {}
 
 -----------------------------------------------------------------------------
 (* C14 / C18 -- aborts, panics, failed restarts *)
@@ -505,9 +525,15 @@ NextMwait ==
 MemberBind == Is("log_append") /\ ~Has("err") /\ Ev.node \in DOMAIN mwait /\ Ev.ctx = "" /\ Len(Ev.entries) = 1 /\ Ev.entries[1].k = 2
 
 \* the submitter is seen in another role or term before its entry commits -> no obligation
-MemberBroken(m) == Is("status") /\ Ev.node = m.node /\ m.st = "bound" /\ (Ev.role # 0 \/ Ev.term # m.term)
-MemberCommitted(m) == Is("status") /\ Ev.node = m.node /\ m.st = "bound" /\ Ev.role = 0 /\ Ev.term = m.term
+\* (a node that is still in the term in which it appended the entry as leader and whose commit
+\* index covers the entry committed it itself: there is no other leader in that term, and a node
+\* that is no longer leader advances its commit index only on a leader's word.  So the role at
+\* the report does not matter - a leader that removed itself has stepped down by then.)
+MemberCommitted(m) == Is("status") /\ Ev.node = m.node /\ m.st = "bound" /\ Ev.term = m.term
                       /\ Ev.commit >= m.idx /\ Ev.applied >= m.idx
+MemberBroken(m) == Is("status") /\ Ev.node = m.node /\ m.st = "bound" /\ (Ev.role # 0 \/ Ev.term # m.term) /\ ~MemberCommitted(m)
+\* the future failed with "not leader" before the next report of its node: judged at that report
+MemberFailedNL(m) == Is("status") /\ Ev.node = m.node /\ m.st = "failed_nl"
 
 NextMtrack ==
   IF Is("scenario") THEN <<>>
@@ -516,8 +542,11 @@ NextMtrack ==
      [o \in DOMAIN mtrack |->
         IF (Is("crash") \/ Is("stop")) /\ Ev.node = mtrack[o].node /\ mtrack[o].st = "bound" THEN [mtrack[o] EXCEPT !.st = "broken"]
         ELSE IF Is("status") /\ MemberBroken(mtrack[o]) THEN [mtrack[o] EXCEPT !.st = "broken"]
+        ELSE IF MemberFailedNL(mtrack[o]) THEN [mtrack[o] EXCEPT !.st = "broken"]
         ELSE IF Is("status") /\ MemberCommitted(mtrack[o]) THEN [mtrack[o] EXCEPT !.st = "committed"]
         ELSE mtrack[o]]
+  ELSE IF Is("return") /\ IsMemberCall(Ev) /\ Ev.res = "not_leader" /\ Ev.op \in DOMAIN mtrack /\ mtrack[Ev.op].st = "bound"
+     THEN [mtrack EXCEPT ![Ev.op].st = "failed_nl"]
   ELSE mtrack
 
 C18_Futures ==
@@ -532,6 +561,9 @@ C18_Futures ==
   \cup
   (IF Is("return") /\ IsMemberCall(Ev) /\ Ev.res # "ok" /\ Ev.op \in DOMAIN mtrack /\ mtrack[Ev.op].st = "committed"
      THEN {V("C18", "MembershipFutureFailedThoughCommitted", <<Ev.op, Ev.call, Ev.id, Ev.res, mtrack[Ev.op].idx>>)} ELSE {})
+  \cup
+  {V("C18", "MembershipFutureFailedThoughCommitted", <<o, "not_leader", mtrack[o].idx, Ev.term, Ev.commit>>) :
+     o \in {o \in DOMAIN mtrack : MemberFailedNL(mtrack[o]) /\ Ev.term = mtrack[o].term /\ Ev.commit >= mtrack[o].idx /\ Ev.applied >= mtrack[o].idx}}
 
 \* a successful membership future reports a configuration that contains the requested change
 C09_FutureTruth ==
@@ -584,6 +616,15 @@ C09_VoteRequests ==
   IF ~(Is("send") /\ Ev.kind = "rv" /\ ~Has("dupof") /\ ~healed /\ Ev.from \in DOMAIN stat) THEN {} ELSE
     IF Ev.to \notin CfgVoters(Ev.from) THEN {V("C09", "VoteRequestToNonVoter", <<Ev.from, Ev.to, CfgVoters(Ev.from)>>)} ELSE {}
 
+\* the configuration a node has in force is a configuration entry of its own log, or lies within
+\* its snapshot (judged at quiescent status reports: after a conflicting suffix is truncated the
+\* node must have fallen back to a configuration it still holds)
+C09_CfgInLog ==
+  IF ~(Is("status") /\ meta.controlled /\ ~healed /\ Ev.cfg.i > 0 /\ "cs" \in DOMAIN Ev.cfg) THEN {} ELSE
+    LET lg == Log(Ev.node)  i == Ev.cfg.i IN
+    IF i <= lg.base \/ (HasIdx(lg, i) /\ At(lg, i).k = 2 /\ At(lg, i).v = Ev.cfg.cs) THEN {}
+    ELSE {V("C09", "ConfigurationInForceNotInLog", <<Ev.node, Ev.cfg.cs, lg.base, LastIdx(lg)>>)}
+
 \* when a leader's commit index passes i, entry i is durable on a majority of the voters of
 \* its configuration in force (now or at its previous status report)
 C09_CommitMajority ==
@@ -591,7 +632,8 @@ C09_CommitMajority ==
        /\ stat[Ev.node].term = Ev.term /\ Ev.commit > stat[Ev.node].commit) THEN {} ELSE
     LET lg == Log(Ev.node)
         news == {i \in (stat[Ev.node].commit + 1)..Ev.commit : HasIdx(lg, i)}
-        holders(i) == {m \in DOMAIN dur : HasIdx(dur[m], i) /\ At(dur[m], i) = At(lg, i)}
+        \* durable as a log entry, or covered by the holder's snapshot (compacted after it was applied there)
+        holders(i) == {m \in DOMAIN dur : (HasIdx(dur[m], i) /\ At(dur[m], i) = At(lg, i)) \/ i <= dur[m].base}
         okcfg(i, vs) == vs # {} /\ Majority(holders(i), vs)
         badIdx == {i \in news : ~okcfg(i, Range(Ev.cfg.v)) /\ ~okcfg(i, CfgVoters(Ev.node))} IN
     IF badIdx # {} THEN {V("C09", "CommitWithoutVoterMajority", <<Ev.node, badIdx, Range(Ev.cfg.v)>>)} ELSE {}
@@ -719,10 +761,10 @@ NewBad ==
              \cup C06_LogMatching \cup C06_Handler \cup C06_Commit
              \cup C08_TermMonotone \cup C08_OneVote \cup C08_VoteUpToDate \cup C08_PrevoteInert \cup C08_Reload
              \cup C03_FutureTruth \cup C03_AtMostOnce \cup C03_RealTime \cup C03_NoInvention
-             \cup C04_AckDurable \cup C04_Replay \cup C05_Reads \cup C17_Lease \cup C14_Abort \cup C14_CatchUp \cup C18_Panic \cup Recorder
+             \cup C04_AckDurable \cup C04_Replay \cup C05_Reads \cup C17_Lease \cup C17_Refusal \cup C14_Abort \cup C14_CatchUp \cup C18_Panic \cup Recorder
              \cup C15_Converge \cup C18_Futures \cup C09_FutureTruth
              \cup C16_Healthy \cup C10_Snapshot \cup C10_Fsm \cup C11_Log
-             \cup C09_CfgAgreement \cup C09_LeaderVotes \cup C09_VoteRequests \cup C09_CommitMajority
+             \cup C09_CfgAgreement \cup C09_LeaderVotes \cup C09_VoteRequests \cup C09_CommitMajority \cup C09_CfgInLog
       \* violations of the replication-safety clauses after the S5 signature carry its tag
       tagged == {IF (s5 \/ KF_S5) /\ b.p \in {"C01", "C02", "C03", "C04", "C05", "C07", "C09", "C15"}
                       /\ b.c \in {"SMSafety", "LeaderCompleteness", "FutureWrongPosition", "FutureWrongResult", "AppliedNotOnMajorityDisk",
@@ -744,7 +786,7 @@ Init ==
   /\ dur = <<>> /\ pstate = <<>> /\ maxterm = <<>> /\ votes = {} /\ applied = <<>> /\ cursor = <<>>
   /\ leaders = <<>> /\ lfirst = {} /\ committed = <<>> /\ reqs = <<>> /\ hpre = <<>> /\ stat = <<>>
   /\ inv = <<>> /\ wdone = {} /\ rdone = {} /\ retd = {} /\ dead = {} /\ mtrack = <<>> /\ mwait = <<>>
-  /\ finals = <<>> /\ healed = FALSE /\ s5 = FALSE /\ hl = NoHealthy /\ fsmc = <<>> /\ taken = {} /\ sopen = <<>> /\ isidx = <<>> /\ lastae = <<>> /\ s7 = {} /\ bad = {}
+  /\ finals = <<>> /\ healed = FALSE /\ s5 = FALSE /\ hl = NoHealthy /\ fsmc = <<>> /\ taken = {} /\ sopen = <<>> /\ isidx = <<>> /\ lastae = <<>> /\ s7 = {} /\ vrep = <<>> /\ bad = {}
 
 Next ==
   /\ l <= Len(Trace)
@@ -774,6 +816,7 @@ Next ==
   /\ mwait' = NextMwait
   /\ finals' = (IF Is("scenario") THEN <<>> ELSE IF Is("final") THEN Put(finals, Ev.node, Ev) ELSE finals)
   /\ healed' = (IF Is("scenario") THEN FALSE ELSE IF Is("heal") THEN TRUE ELSE healed)
+  /\ vrep' = NextVrep
   /\ s5' = (IF Is("scenario") THEN FALSE ELSE s5 \/ KF_S5)
   /\ hl' = NextHl
   /\ fsmc' = NextFsmc
